@@ -59,9 +59,92 @@ def make_texts(art, rnd, count, maxrunes):
     return [[c for c in t if c > 0] for t in texts]
 
 
+def validate_reader(ck, rt):
+    vp.write_ndjson(os.path.join(ck.work, "tla", "rtraces.ndjson"), rt)
+    r1 = ck.tlc("ReaderTrace", timeout=2400)
+    if not r1.ok:
+        raise vp.Infra("ReaderTrace did not complete:\n" + r1.out[-2000:])
+    byid = {t["id"]: t for t in rt}
+    for d in r1.printed("RMISMATCH"):
+        t = byid[d["id"]]
+        ck.violation("emitted reader (half size %d) on source %s: operation #%d %s returned %s, the reader contract gives %s" %
+                     (t["n"], t["src"], d["at"] + 1, t["ops"][d["at"]]["op"] if d["at"] < len(t["ops"]) else "(end)",
+                      json.dumps(t["ops"][d["at"]]) if d["at"] < len(t["ops"]) else t["fail"], d["expect"]),
+                     {"property": "C19", "kind": "reader", "n": t["n"], "src": t["src"], "ops": [o["op"] for o in t["ops"]]})
+
+
+def reader_records(drv, n, cases, prefix):
+    reqs = [{"op": "reader", "id": "%s%d-%d" % (prefix, n, i), "text": "".join(map(chr, r["src"])), "n": n, "ops": r["ops"]} for i, r in enumerate(cases)]
+    resp = ec.drive(drv, reqs)
+    out = []
+    for q, r in zip(reqs, cases):
+        d = resp[q["id"]]
+        ops = [dict(x, op=o) for x, o in zip(d["res"], r["ops"])]
+        out.append({"id": q["id"], "src": r["src"], "ops": ops, "fail": d["fail"] if len(ops) == len(r["ops"]) else (d["fail"] or "short"), "lenient": False, "n": n})
+    return out
+
+
+def validate_streams(ck, autos, streams, specs):
+    """GenStream on the recorded streams; returns (TLC result, mismatches)."""
+    vp.write_ndjson(os.path.join(ck.work, "tla", "gautos.ndjson"), autos)
+    vp.write_ndjson(os.path.join(ck.work, "tla", "gstreams.ndjson"), streams)
+    os.environ["JAVA_TOOL_OPTIONS"] = (os.environ.get("JAVA_TOOL_OPTIONS", "").replace("-Xss256m", "") + " -Xss256m").strip()
+    r2 = ck.tlc("GenStream", timeout=3000)
+    if not r2.ok:
+        raise vp.Infra("GenStream did not complete:\n" + r2.out[-2000:])
+    byid = {s["id"]: s for s in streams}
+    mism = r2.printed("MISMATCH")
+    for d in mism:
+        s = byid[d["id"]]
+        i = d["i"]
+        got = (json.dumps(s["toks"][i]) if i < len(s["toks"]) else "end=%s %s:%s %s" % (s["end"], s["eln"], s["ecol"], s["emsg"]))
+        exp = ("end of input" if d["k"] == "EOF" else "lexical error at %d:%d" % (d["ln"], d["col"]) if d["k"] == "ERR" else
+               "token %s %r at %d:%d" % (d["k"], "".join(map(chr, d["lx"])), d["ln"], d["col"]))
+        text = "".join(map(chr, s["cps"]))
+        ck.violation("%s: text %r (%d runes): step %d must be %s, the emitted lexer gives %s" % (s["id"], text[-60:], len(s["cps"]), i + 1, exp, got[:160]),
+                     {"property": "C19", "kind": "stream", "spec": specs[s["id"].split("/")[0]], "text": text, "n": int(s["id"].rsplit("/n", 1)[1])})
+    bad = {d["id"]: d["i"] for d in mism}
+    expect = sum((bad[k] + 2) if k in bad else (len(s["toks"]) + 2) for k, s in byid.items())
+    if r2.distinct != expect:
+        raise vp.Infra("trace acceptance count is off: TLC found %d states, the recorded streams need %d" % (r2.distinct, expect))
+    return r2, mism
+
+
+def stream_record(q, st, auto_index):
+    return {"id": q["id"], "auto": auto_index, "cps": q["cps"], "toks": st["toks"], "end": st["end"],
+            "eln": st["eln"], "ecol": st["ecol"], "emsg": st["emsg"][:120]}
+
+
+def replay(ck, rp):
+    """Re-derives one recorded case: the specification is emitted and compiled again, the one text (or the one reader
+    operation sequence) is run on it and validated by TLC as in the full check."""
+    name = "replay"
+    ec.POOL[name] = rp.get("spec") or ec.POOL["kw"]
+    arts = ec.emit_all(ck, [name])
+    a = arts[name]
+    if a["err"]:
+        raise vp.Infra("the specification of the replay file is rejected: " + a["err"][:200])
+    vet_ok, vet_out, build_ok, build_out, drv = ec.prepare(ck, a)
+    if not build_ok:
+        ck.violation("the emitted package does not compile: %s" % build_out[:300], {"property": "C19", "kind": "does-not-compile", "spec": ec.POOL[name]})
+        return ck.finish()
+    if rp.get("kind") == "reader":
+        validate_reader(ck, reader_records(drv, rp["n"], [{"src": rp["src"], "ops": rp["ops"]}], "P"))
+    else:
+        cps = [ord(c) for c in rp["text"]]
+        q = {"op": "scan", "id": "%s/t0/n%d" % (name, rp["n"]), "text": rp["text"], "n": rp["n"], "cps": cps}
+        resp = ec.drive(drv, [{k: v for k, v in q.items() if k != "cps"}])
+        validate_streams(ck, [ec.auto_record(a)], [stream_record(q, resp[q["id"]]["stream"], 1)], {name: ec.POOL[name]})
+    ck.coverage["traces_validated_against_impl"] += 1
+    ck.sample({"replayed": rp.get("text", rp.get("ops"))})
+    return ck.finish()
+
+
 def run(ck):
     quick = ck.tier == "quick"
     ck.stage_specs()
+    if ck.args.replay:
+        return replay(ck, json.load(open(ck.args.replay)))
     rnd = random.Random(ck.seed)
     # Specifications whose token automaton accepts the empty string are left to C08 (table encoding): "the longest
     # run from each token start" is then an endless stream of empty tokens, for the automaton and for the emitted lexer alike.
@@ -99,23 +182,8 @@ def run(ck):
                     seen.add(k)
                     uniq.append(r)
             uniq = rnd.sample(uniq, min(len(uniq), 700 if quick else 6000))
-            reqs = [{"op": "reader", "id": "R%d-%d" % (n, i), "text": "".join(map(chr, r["src"])), "n": n, "ops": r["ops"]} for i, r in enumerate(uniq)]
-            resp = ec.drive(drivers[some], reqs)
-            for q, r in zip(reqs, uniq):
-                d = resp[q["id"]]
-                ops = [dict(x, op=o) for x, o in zip(d["res"], r["ops"])]
-                rt.append({"id": q["id"], "src": r["src"], "ops": ops, "fail": d["fail"] if len(ops) == len(r["ops"]) else (d["fail"] or "short"), "lenient": False, "n": n})
-        vp.write_ndjson(os.path.join(ck.work, "tla", "rtraces.ndjson"), rt)
-        r1 = ck.tlc("ReaderTrace", timeout=2400)
-        if not r1.ok:
-            raise vp.Infra("ReaderTrace did not complete:\n" + r1.out[-2000:])
-        byid = {t["id"]: t for t in rt}
-        for d in r1.printed("RMISMATCH"):
-            t = byid[d["id"]]
-            ck.violation("emitted reader (half size %d) on source %s: operation #%d %s returned %s, the reader contract gives %s" %
-                         (t["n"], t["src"], d["at"] + 1, t["ops"][d["at"]]["op"] if d["at"] < len(t["ops"]) else "(end)",
-                          json.dumps(t["ops"][d["at"]]) if d["at"] < len(t["ops"]) else t["fail"], d["expect"]),
-                         {"property": "C19", "kind": "reader", "n": t["n"], "src": t["src"], "ops": [o["op"] for o in t["ops"]]})
+            rt += reader_records(drivers[some], n, uniq, "R")
+        validate_reader(ck, rt)
         ck.coverage["traces_validated_against_impl"] += len(rt)
         ck.log("reader: %d operation sequences replayed on the emitted reader at half sizes 2, 3, 4" % len(rt))
 
@@ -148,8 +216,7 @@ def run(ck):
         resp = ec.drive(drivers[pid], [{k: v for k, v in q.items() if k != "cps"} for q in reqs])
         for q in reqs:
             st = resp[q["id"]]["stream"]
-            streams.append({"id": q["id"], "auto": idx[pid], "cps": q["cps"], "toks": st["toks"], "end": st["end"],
-                            "eln": st["eln"], "ecol": st["ecol"], "emsg": st["emsg"][:120]})
+            streams.append(stream_record(q, st, idx[pid]))
     vp.write_ndjson(os.path.join(ck.work, "tla", "gautos.ndjson"), autos)
     vp.write_ndjson(os.path.join(ck.work, "tla", "gstreams.ndjson"), streams)
     if ck.args.selftest:
@@ -162,30 +229,12 @@ def run(ck):
         h = len(r.printed("MISMATCH"))
         print("SELFTEST %s: a column shifted / a token dropped -> %d of 2 streams rejected" % ("OK" if h == 2 else "FAILED", h))
         return 0 if h == 2 else 2
-    os.environ["JAVA_TOOL_OPTIONS"] = (os.environ.get("JAVA_TOOL_OPTIONS", "") + " -Xss256m").strip()
-    r2 = ck.tlc("GenStream", timeout=3000)
-    if not r2.ok:
-        raise vp.Infra("GenStream did not complete:\n" + r2.out[-2000:])
-    byid = {s["id"]: s for s in streams}
-    mism = r2.printed("MISMATCH")
-    for d in mism:
-        s = byid[d["id"]]
-        i = d["i"]
-        got = (json.dumps(s["toks"][i]) if i < len(s["toks"]) else "end=%s %s:%s %s" % (s["end"], s["eln"], s["ecol"], s["emsg"]))
-        exp = ("end of input" if d["k"] == "EOF" else "lexical error at %d:%d" % (d["ln"], d["col"]) if d["k"] == "ERR" else
-               "token %s %r at %d:%d" % (d["k"], "".join(map(chr, d["lx"])), d["ln"], d["col"]))
-        text = "".join(map(chr, s["cps"]))
-        ck.violation("%s: text %r (%d runes): step %d must be %s, the emitted lexer gives %s" % (s["id"], text[-60:], len(s["cps"]), i + 1, exp, got[:160]),
-                     {"property": "C19", "kind": "stream", "spec": ec.POOL[s["id"].split("/")[0]], "text": text, "n": int(s["id"].rsplit("/n", 1)[1])})
-    bad = {d["id"]: d["i"] for d in mism}
-    expect = sum((bad[k] + 2) if k in bad else (len(s["toks"]) + 2) for k, s in byid.items())
-    if r2.distinct != expect:
-        raise vp.Infra("trace acceptance count is off: TLC found %d states, the recorded streams need %d" % (r2.distinct, expect))
+    r2, mism = validate_streams(ck, autos, streams, ec.POOL)
     ck.coverage["traces_validated_against_impl"] += len(streams)
     ck.log("streams: %d (texts x reader sizes x paddings) validated, %d mismatches" % (len(streams), len(mism)))
     for s in streams[:: max(1, len(streams) // 8)]:
         ck.sample({"id": s["id"], "text": "".join(map(chr, s["cps"]))[-40:], "tokens": [t["k"] for t in s["toks"]][:8], "end": s["end"]})
     ck.assumptions += ["offsets, lines and columns count characters (runes); a line ends with LF",
-                       "lexemes are shorter than one reader half (the two-buffer contract); small half sizes (2..16) exercise every alignment",
+                       "lexemes of any length (half size 8 in the thorough tier makes most tokens longer than the reader); small half sizes (2..16) exercise every alignment; specifications whose automaton accepts the empty string are left to C08",
                        "NUL never occurs in inputs (reserved end marker)"]
     return ck.finish({"exhaustive": False, "specs": len(drivers), "reader_traces": len(rt), "streams": len(streams)})
